@@ -56,3 +56,59 @@ pub(crate) fn store_entries<T>(s: &Store<T>) -> &Vec<T> {
 pub(crate) fn store_entries_mut<T>(s: &mut Store<T>) -> &mut Vec<T> {
     &mut s.entries
 }
+
+// ================================================================================================
+// C10: end-of-iteration leak scan of the object store
+// ================================================================================================
+use crate::{oblige, reach};
+
+/// Store with two entries drawn from {Alloc, Arc, Mutex}; `leaky[i]` tells whether entry i leaks.
+fn leak_store(k0: u8, k1: u8) -> (Store, [bool; 2]) {
+    let mut st: Store = Store::with_capacity(4);
+    let mut leaky = [false; 2];
+    let mut add = |st: &mut Store, k: u8, slot: usize| match k {
+        0 => {
+            let a = rt::alloc::verif_kani::any_alloc_state();
+            leaky[slot] = rt::alloc::verif_kani::is_live(&a);
+            st.insert(a);
+        }
+        1 => {
+            let a = rt::arc::verif_kani::any_arc_state();
+            leaky[slot] = rt::arc::verif_kani::count(&a) != 0;
+            st.insert(a);
+        }
+        _ => {
+            st.entries.push(Entry::Mutex(rt::mutex::verif_kani::unlocked_mutex_state()));
+        }
+    };
+    add(&mut st, k0, 0);
+    add(&mut st, k1, 1);
+    (st, leaky)
+}
+
+//@ props=C10 tier=quick fns=src/rt/object.rs::Store::check_for_leaks,src/rt/execution.rs::Execution::check_for_leaks bounded=store:entries=2
+#[kani::proof]
+#[kani::unwind(7)]
+fn c10_store_scan_silent_when_nothing_leaks() {
+    let (k0, k1): (u8, u8) = (kani::any(), kani::any());
+    kani::assume(k0 < 3 && k1 < 3);
+    let (st, leaky) = leak_store(k0, k1);
+    kani::assume(!leaky[0] && !leaky[1]);
+    st.check_for_leaks();
+    oblige!("C10.store.no_report_when_every_entry_is_released", true);
+    std::mem::forget(st);
+    reach!("c10_store_scan_silent");
+}
+
+//@ props=C10 tier=quick fns=src/rt/object.rs::Store::check_for_leaks bounded=store:entries=2 expect_panic=leaked
+#[kani::proof]
+#[kani::unwind(7)]
+fn c10_store_scan_reports_any_leaking_entry() {
+    let (k0, k1): (u8, u8) = (kani::any(), kani::any());
+    kani::assume(k0 < 3 && k1 < 3);
+    let (st, leaky) = leak_store(k0, k1);
+    // a leak anywhere in the store (first or last entry) must be reported
+    kani::assume(leaky[0] || leaky[1]);
+    st.check_for_leaks();
+    crate::must_not_reach!("C10.store.scan_returns_although_an_entry_leaks");
+}
